@@ -1,6 +1,7 @@
 import ZenonVerif.Model.Versioned
 import ZenonVerif.Lemmas.KvLogic
 import ZenonVerif.Lemmas.KvOrder
+import ZenonVerif.Lemmas.LdbInv
 /-
 C07 — versioned store: a view at commit X shows exactly the state as of X. Property theorems only.
 (C06-T2 `rollback_exact` lives in Props/C06.lean.)
@@ -13,23 +14,7 @@ open ZV ZV.Kv ZV.KvLogic ZV.Versioned
     patch `rollbackPatch cur p` is folded into the overlay without overriding) it still shows `sX`. -/
 theorem view_step (sX cur : Store) (o : Overlay) (p : Patch)
     (h : viewOf o cur = sX) :
-    viewOf (woP o (rollbackPatch cur p)) (applyP cur p) = sX := by
-  funext x
-  have hx : viewOf o cur x = sX x := congrFun h x
-  simp only [viewOf] at hx ⊢
-  cases ho : o x with
-  | some y =>
-    rw [woP_keep _ _ _ _ ho]
-    simpa [ho] using hx
-  | none =>
-    simp only [ho] at hx
-    by_cases hm : x ∈ keys p
-    · rw [woP_rollback_fresh cur p o x hm ho]; exact hx
-    · have hm' : x ∉ keys (rollbackPatch cur p) := by
-        simpa [keys, rollbackPatch, List.map_map, Function.comp_def, undoOp_key] using hm
-      rw [woP_not_mem _ _ _ hm', ho]
-      simp only []
-      rw [applyP_not_mem p cur x hm]; exact hx
+    viewOf (woP o (rollbackPatch cur p)) (applyP cur p) = sX := viewOf_step sX cur o p h
 
 /-- the frontier after a list of commits -/
 def frontierAfter (s : Store) : List Patch → Store
@@ -135,6 +120,121 @@ theorem hist_scan_drops_empty_value_witness :
     edEntries ((Root.front [([9], [0])]).rawScan []) = [([9], [])] := by
   refine ⟨by decide, ?_, by decide⟩
   simp [Root.rawScan, rscan, isPrefix, merge2, bytesLt, skipDel, edEntries]
+
+
+/-! ### the executable manager (`Ldb` = ldbManager without caches) over arbitrary operation sequences
+
+`Reach s h` (Lemmas/LdbInv.lean): `s` is reachable from the empty store by any sequence of commits on the
+frontier (`Ldb.add s.frontierId …` with height = frontier height + 1 < 2^64, a hash not used on the chain, user
+keys outside the hash-index prefix), commits on any other parent, and pops; `h` is the ghost history of the
+current chain, newest first; `v.store` is the logical content (meta keys included) at the moment `v` was
+committed: `applyP (content of the predecessor) (ops ++ frontierOps id)`. -/
+
+/-- the frontier of a reachable state holds the content and the identifier of the newest version -/
+theorem frontier_refines {s : Ldb} {h : List Ver} (hr : Reach s h) :
+    (∀ k, (Root.front s.frontier).get k = topStore h k) ∧ s.frontierId = topId h ∧ Sorted s.frontier :=
+  ⟨fun k => congrFun hr.inv.inv0.front k, hr.inv.inv0.frontierId, hr.inv.inv0.sorted⟩
+
+/-- T1 `view_refines` (executable manager, lookup): in every reachable state, `Get(id)` of every version on the
+    chain succeeds, and the returned view reads — for EVERY key — exactly what the store held when that version
+    was committed, whatever was committed, refused or popped afterwards. -/
+theorem view_refines {s : Ldb} {h : List Ver} (hr : Reach s h) {v : Ver} (hv : v ∈ h) :
+    ∃ r, s.get v.id = some r ∧ ∀ k, r.get k = v.store k := by
+  obtain ⟨r, hg, hget, _⟩ := hr.inv.view hv
+  exact ⟨r, hg, fun k => congrFun hget k⟩
+
+/-- T1, existence test (`Has`) -/
+theorem view_refines_has {s : Ldb} {h : List Ver} (hr : Reach s h) {v : Ver} (hv : v ∈ h) :
+    ∃ r, s.get v.id = some r ∧ ∀ k, (r.get k).isSome = (v.store k).isSome := by
+  obtain ⟨r, hg, hget⟩ := view_refines hr hv
+  exact ⟨r, hg, fun k => by rw [hget k]⟩
+
+/-- T1, ordered scan: the scan of the view at `v` under prefix `p` is the key-ordered list of exactly the entries
+    of `v`'s content under `p` — except that for a version below the frontier the keys holding the empty value
+    are missing (known finding F3b; `scanSpec` spells the exception out: `v.id = topId h ∨ val ≠ []`). -/
+theorem view_refines_scan_partial {s : Ldb} {h : List Ver} (hr : Reach s h) {v : Ver} (hv : v ∈ h) (p : Bytes) :
+    ∃ r, s.get v.id = some r ∧
+      OrderedEntries (edEntries (r.rawScan p))
+        (fun k val => isPrefix p k = true ∧ v.store k = some val ∧ (v.id = topId h ∨ val ≠ [])) := by
+  obtain ⟨r, hg, _, hscan⟩ := hr.inv.view_scan hv
+  exact ⟨r, hg, hscan p⟩
+
+/-- T4 `add_parent_check`: a commit on anything but the frontier leaves the store unchanged (the call itself
+    reports success when the parent is a known version — the repository's own test needs that). -/
+theorem add_parent_check {s s' : Ldb} {prev id : Id} {ops : Patch} (hne : prev ≠ s.frontierId)
+    (ha : s.add prev id ops = some s') : s' = s := add_stale_eq hne ha
+
+/-- an identifier that is not on the current chain (unknown hash, or a known hash with another height) gets no
+    view … -/
+theorem unknown_id_refused {s : Ldb} {h : List Ver} (hr : Reach s h) {id : Id} (hz : id.isZero = false)
+    (hid : ∀ v ∈ h, v.id ≠ id) : s.get id = none := hr.inv.get_unknown hz hid
+
+/-- … and a commit on it fails with an error -/
+theorem unknown_parent_refused {s : Ldb} {h : List Ver} (hr : Reach s h) {prev : Id} (hz : prev.isZero = false)
+    (hid : ∀ v ∈ h, v.id ≠ prev) (id : Id) (ops : Patch) : s.add prev id ops = none :=
+  hr.inv.add_unknown hz hid id ops
+
+/-- T2 `view_immutable` (value level): the views handed out for the same version in two different reachable
+    states — e.g. before and after any number of later commits, refused commits and pops that keep the version on
+    the chain — agree on every lookup and every ordered scan below the frontier. (A view is a value here: it owns
+    its snapshot; aliasing of the cached overlay object is outside this model and covered by the `vdb` stream.) -/
+theorem view_immutable {s s' : Ldb} {h h' : List Ver} (hr : Reach s h) (hr' : Reach s' h') {v : Ver}
+    (hv : v ∈ h) (hv' : v ∈ h') :
+    ∃ r r', s.get v.id = some r ∧ s'.get v.id = some r' ∧ (∀ k, r.get k = r'.get k) ∧
+      (v.id ≠ topId h → v.id ≠ topId h' → ∀ p, edEntries (r.rawScan p) = edEntries (r'.rawScan p)) := by
+  obtain ⟨r, hg, hget, hscan⟩ := hr.inv.view_scan hv
+  obtain ⟨r', hg', hget', hscan'⟩ := hr'.inv.view_scan hv'
+  refine ⟨r, r', hg, hg', fun k => by rw [hget, hget'], ?_⟩
+  intro h1 h2 p
+  refine (hscan p).unique ⟨(hscan' p).1, ?_⟩
+  intro k val
+  rw [(hscan' p).2]
+  simp only [scanSpec, h1, h2]
+
+/-- N2 (F3b) on the manager: a key holding the empty value in a version below the frontier is answered by
+    `Get`/`Has` of the view but missing from its scans -/
+theorem view_scan_drops_empty_value {s : Ldb} {h : List Ver} (hr : Reach s h) {v : Ver} (hv : v ∈ h)
+    (hnf : v.id ≠ topId h) {k : Bytes} (hk : v.store k = some []) :
+    ∃ r, s.get v.id = some r ∧ r.get k = some [] ∧ ∀ p val, (k, val) ∉ edEntries (r.rawScan p) := by
+  obtain ⟨r, hg, hget, hscan⟩ := hr.inv.view_scan hv
+  refine ⟨r, hg, by rw [hget, hk], ?_⟩
+  intro p val hm
+  have := ((hscan p).2 k val).1 hm
+  simp only [scanSpec, hnf, false_or] at this
+  rw [hk] at this
+  exact this.2.2 (Option.some.inj this.2.1).symm
+
+/-- non-vacuity of `Reach`: two commits, a refused commit on the stale first version, a third commit and a pop;
+    the final state is reachable with a history of two versions, and the view at the first version still hides
+    what the second wrote -/
+example : ∃ s h v1, Reach s h ∧ h.length = 2 ∧ v1 ∈ h ∧ v1.id = ⟨1, [7]⟩ ∧
+    v1.store [9] = some [] ∧ v1.store [10] = none ∧ topStore h [10] = some [5] := by
+  let id1 : Id := ⟨1, [7]⟩
+  let id2 : Id := ⟨2, [8]⟩
+  let id3 : Id := ⟨3, [9]⟩
+  let ops1 : Patch := [Op.put [9] []]
+  let ops2 : Patch := [Op.put [10] [5], Op.del [9]]
+  have r0 := Reach.init
+  -- commit 1
+  obtain ⟨s1, a1⟩ := r0.inv.inv0.add_succeeds id1 ops1
+  have r1 := Reach.add (id := id1) (ops := ops1) r0 ⟨⟨by decide, by decide⟩, by simp, by decide⟩ a1
+  have f1 : s1.frontierId = id1 := r1.inv.inv0.frontierId
+  -- commit 2
+  obtain ⟨s2, a2⟩ := r1.inv.inv0.add_succeeds id2 ops2
+  have r2 := Reach.add (id := id2) (ops := ops2) r1
+    ⟨⟨by rw [f1], by decide⟩, by simp [commitVer, id1, id2], by decide⟩ a2
+  have f2 : s2.frontierId = id2 := r2.inv.inv0.frontierId
+  -- a commit on the stale version 1 is a no-op
+  have hne : id1 ≠ s2.frontierId := by rw [f2]; decide
+  have a3 := r2.inv.add_stale_succeeds (v := commitVer [] id1 ops1) (by simp) hne id3 []
+  have r3 := Reach.addStale r2 hne a3
+  -- commit 3 and pop it again
+  obtain ⟨s4, a4⟩ := r3.inv.inv0.add_succeeds id3 []
+  have r4 := Reach.add (id := id3) (ops := []) r3
+    ⟨⟨by rw [f2], by decide⟩, by simp [commitVer, id1, id2, id3], by simp⟩ a4
+  obtain ⟨s5, p5⟩ := r4.inv.inv0.pop_succeeds
+  have r5 := Reach.pop r4 p5
+  exact ⟨s5, _, commitVer [] id1 ops1, r5, rfl, by simp, rfl, by decide, by decide, by decide⟩
 
 /-- non-vacuity: a concrete two-commit history; the view at the first version hides the later write and deletion -/
 example :
